@@ -242,6 +242,22 @@ func tAfterName(c context, s []byte) (context, int) {
 		c.state, c.attr = stateTag, attr{}
 		return c, i
 	}
+	if c.attr.name == "" {
+		// `<a {{if .C}}href{{end}}="x">`: the name kept from the conditional branches is the
+		// empty one. Without a name a browser does not read `="x"` as a value.
+		return context{
+			state: stateError,
+			err:   errorf(ErrBadHTML, nil, 0, "expected space, attr name, or end of tag, but got %q", s[i:]),
+		}, len(s)
+	}
+	for _, name := range c.attr.names {
+		if name == "" {
+			return context{
+				state: stateError,
+				err:   errorf(ErrBadHTML, nil, 0, "attribute value after an attribute name that is empty in a conditional branch: %q", s[i:]),
+			}, len(s)
+		}
+	}
 	c.state = stateBeforeValue
 	// Consume the "=".
 	return c, i + 1
